@@ -1,0 +1,28 @@
+//go:build verif
+
+package masswallet
+
+// Verification hooks for the transaction-building property (engine `txb` of the verification
+// harness). Thin exported wrappers around unexported helpers; no logic.
+
+import (
+	"github.com/massnetorg/mass-core/massutil"
+
+	"massnet.org/mass-wallet/masswallet/txmgr"
+)
+
+// VerifEligibleUtxos = getUtxosExcludeBindingAndStaking: the coins the automatic selection keeps
+// for the given addresses and target (eligibility filter + top-K selector), and the overfull flag.
+func (w *WalletManager) VerifEligibleUtxos(addrs []string, want massutil.Amount) ([]*txmgr.Credit, bool, error) {
+	return w.getUtxosExcludeBindingAndStaking(addrs, want)
+}
+
+// VerifFindEligibleUtxos = findEligibleUtxos (filter + selector + greedy subset).
+func (w *WalletManager) VerifFindEligibleUtxos(amount massutil.Amount, addrs []string) ([]*txmgr.Credit, string, massutil.Amount, bool, error) {
+	return w.findEligibleUtxos(amount, addrs)
+}
+
+// VerifPrepareFromAddresses = prepareFromAddresses.
+func (w *WalletManager) VerifPrepareFromAddresses(from string) ([]string, error) {
+	return w.prepareFromAddresses(from)
+}
